@@ -645,6 +645,9 @@ class Probe:
 
     def __init__(self):
         self.stmt, self.calls, self.used, self.oracle_escapes, self.gave_up = {}, {}, set(), [], []
+        # oracle py_stmt_errline (Compiler/ParseBase.v): for a statement Python rejected, `e.lineno - 1 if e.lineno
+        # else 0` of the real SyntaxError -- what core.py adds to the index of the `~` line
+        self.errline = {}
 
     def __enter__(self):
         from bardic.compiler.parsing import core
@@ -675,11 +678,12 @@ class Probe:
             mode = k.get("mode", a[1] if len(a) > 1 else "exec")
             try:
                 tree = probe.real_parse(source, *a, **k)
-            except SyntaxError:
+            except SyntaxError as e:
                 if mode == "eval" and isinstance(source, str) and source.startswith("_temp_("):
                     probe.calls[source[7:-1]] = (None, True)
                 else:
                     probe.stmt[source] = False
+                    probe.errline[source] = e.lineno - 1 if e.lineno else 0
                 raise
             except (RecursionError, MemoryError, ValueError) as e:
                 # Python's parser gave up: the compiler reports that as a SyntaxError (fix 6f31489), so the
@@ -689,6 +693,7 @@ class Probe:
                     probe.calls[source[7:-1]] = (None, True)
                 else:
                     probe.stmt[source] = False
+                    probe.errline[source] = 0      # the compiler's replacement SyntaxError carries no lineno
                 raise
             except BaseException as e:  # noqa
                 probe.oracle_escapes.append((mode, source, type(e).__name__))
